@@ -5,7 +5,7 @@ The model describes what a *correct* driver does for a command shape
     (mode, o, kinds, outloc)
 
   mode    "E" | "S" | "c" | "link"
-  o       None (no -o) | "file" (-o <path>)
+  o       None (no -o) | "file" (-o <path>) | "dash" (-o -, standard output; judged for -E and -S only)
   kinds   tuple of input kinds, one per input slot (length 1..3)
   outloc  "w" (fresh writable directory) | "sent" (every possible output path pre-exists with sentinel
           content) | "unw" (-o: path inside a directory that does not exist; no -o: every default output name
@@ -106,9 +106,16 @@ class Shape:
         if self.outloc != "w" and mode == "E" and not self.o:
             self.defined, self.why_undefined = False, "-E without -o writes to stdout: no output location"
         opath = None
-        if self.o:
+        if self.o == "dash":
+            # "-o -": standard output for -E and -S; what -c / link do with it is not defined by the property
+            if mode in ("c", "link"):
+                self.defined, self.why_undefined = False, "-o - with an object/executable output"
+            if self.outloc != "w":
+                self.defined, self.why_undefined = False, "-o - has no output location"
+        elif self.o:
             opath = "nodir/out.x" if self.outloc == "unw" else "out.x"
         self.opath = opath
+        self.to_stdout = mode in ("E", "S") and (self.o == "dash" or (mode == "E" and not self.o))
 
         # per-slot outputs and steps of the ideal pipeline
         self.tu_out = {}        # slot -> requested output path of that input (None: stdout / temporary)
@@ -125,7 +132,7 @@ class Shape:
                     self.tu_out[i] = opath
                     producing += 1
                 elif mode == "S":
-                    self.tu_out[i] = opath or base_of(name) + ".s"
+                    self.tu_out[i] = None if self.o == "dash" else (opath or base_of(name) + ".s")
                     producing += 1
                 elif mode == "c":
                     self.steps.append(("as", i))
@@ -184,7 +191,7 @@ class Shape:
         if self.mode != "link":
             a.append("-" + self.mode)
         if self.o:
-            a += ["-o", self.opath]
+            a += ["-o", "-" if self.o == "dash" else self.opath]
         return a + list(self.inputs)
 
     def possible_outputs(self):
@@ -210,7 +217,7 @@ class Shape:
         return self.inputs.index(b) if b in self.inputs else None
 
 
-def enumerate_shapes(kinds_by_len, modes=("E", "S", "c", "link"), os_=(None, "file"), outlocs=("w", "sent", "unw")):
+def enumerate_shapes(kinds_by_len, modes=("E", "S", "c", "link"), os_=(None, "file", "dash"), outlocs=("w", "sent", "unw")):
     """kinds_by_len: {length: [kind, ...]} - all lists of that length over that alphabet."""
     import itertools
     for mode in modes:
